@@ -22,7 +22,7 @@ out = ['# Seeded property-breaking changes', '',
        'Every change was produced by a sub-agent that saw only the property text and its own scratch worktree, and was then',
        'confirmed by `vc/seedconfirm.py` (demo passes clean / fails patched / full suite passes patched) in a scratch worktree.',
        '`vc/seedrun.py <id>` applies the patch to /repo, runs the registered checks and undoes it.', '',
-       '| id | property | change | needs | confirmed | checks | if missed: why |', '|---|---|---|---|---|---|---|']
+       '| id | property | change | needs | confirmed | checks | if missed (or missed at first): why, and what was done |', '|---|---|---|---|---|---|---|']
 for r in rows:
     out.append('| ' + ' | '.join(str(x).replace('|', '/').replace('\n', ' ') for x in r) + ' |')
 open(os.path.join(HERE, 'seeded', 'README.md'), 'w').write('\n'.join(out) + '\n')
